@@ -805,13 +805,18 @@ def ir_to_smtlib(x: tuple) -> str:
     raise ValueError(k)
 
 
-def emptiness_smt2(members: Sequence[tuple], non_members: Sequence[tuple] = (), var: str = "x") -> str:
-    """SMT-LIB script: is there x in every `members` language and in no `non_members` language?"""
+def emptiness_smt2(members: Sequence[tuple], non_members: Sequence[tuple] = (), var: str = "x",
+                   not_containing: Sequence[str] = ()) -> str:
+    """SMT-LIB script: is there x in every `members` language, in no `non_members` language,
+    and with none of `not_containing` as a substring (str.contains form of a case-sensitive
+    ContainsAny)?"""
     lines = ["(set-logic QF_SLIA)", "(declare-const %s String)" % var]
     for m in members:
         lines.append("(assert (str.in_re %s %s))" % (var, ir_to_smtlib(m)))
     for m in non_members:
         lines.append("(assert (not (str.in_re %s %s)))" % (var, ir_to_smtlib(m)))
+    for s in not_containing:
+        lines.append("(assert (not (str.contains %s %s)))" % (var, smt_string(s)))
     lines.append("(check-sat)")
     lines.append("(get-value (%s))" % var)
     return "\n".join(lines) + "\n"
